@@ -79,10 +79,57 @@ def run(pid, ctx, repo=None):
     return results
 
 
+def gm_control(pid, ctx, n=24, repo=None):
+    """Standing false-alarm control: n synthetic behaviour-preserving rewrites (build/gm: semantics preserving by construction)
+    of the functions this check analysed, one per scratch copy; the check must stay silent on every one of them."""
+    from . import gmctl
+    repo = repo or facts.REPO
+    gmctl.ensure()
+    mod = importlib.import_module('sa.props.' + pid)
+    base = baseline_keys(ctx)
+    seed = int(os.environ.get('VERIF_SEED', '0') or 0) * 1000 + int(pid[1:])
+    sites = gmctl.sample_for(sorted(ctx.functions), repo, n, seed)
+    results = []
+    work = tempfile.mkdtemp(prefix='gdstk-gm.')
+    try:
+        for i, site in enumerate(sites):
+            pd = gmctl.make_patch(site, repo, work, i)
+            if pd is None:
+                continue
+            d = tempfile.mkdtemp(prefix='gdstk-selftest.')
+            try:
+                for sub in ('src', 'include', 'external'):
+                    shutil.copytree(os.path.join(repo, sub), os.path.join(d, sub), symlinks=True)
+                p = subprocess.run(['patch', '-p1', '-s', '-f', '--no-backup-if-mismatch', '-i', os.path.join(pd, 'patch.diff')], cwd=d, stdout=subprocess.PIPE, stderr=subprocess.STDOUT, text=True)
+                if p.returncode != 0:
+                    continue
+                name = 'gm/%s:%s@%s:%s' % (site['kind'], site['func'].replace('gdstk::', ''), os.path.basename(site['file']), site['line'])
+                try:
+                    db2 = facts.load(d)
+                    c2 = core.Ctx(pid, 'quick', db2, scratch=True)
+                    mod.run(c2)
+                    new = [o for o in c2.obs if o.status == 'violation' and (o.rule, o.key) not in base]
+                    broken = [m for m in c2.mins if m[1] < m[2]] + [c for c in c2.controls if not c[1]]
+                    fired = bool(new) or bool(broken)
+                    rep = [{'rule': o.rule, 'instance': o.key, 'loc': o.loc, 'what': o.what[:200]} for o in new[:3]] or ([{'analysis_broken': str(broken[:2])}] if broken else [])
+                except facts.AnalysisBroken as e:
+                    if 'extractor failed' in str(e):
+                        continue            # the rewrite does not compile in some configuration: not a variant
+                    fired = True
+                    rep = [{'analysis_broken': str(e)[:300]}]
+                results.append({'patch': name, 'status': 'caught' if fired else 'missed', 'expect': 'silent', 'reports': rep, 'note': 'synthetic behaviour-preserving rewrite'})
+            finally:
+                shutil.rmtree(d, ignore_errors=True)
+    finally:
+        shutil.rmtree(work, ignore_errors=True)
+    return results
+
+
 def summarise(ctx, results):
     fired = sum(1 for r in results if r['status'] == 'caught')
     total = sum(1 for r in results if r['status'] != 'skipped')
-    ctx.extra['selftest'] = {'fired': fired, 'total': total, 'skipped': sum(1 for r in results if r['status'] == 'skipped'), 'results': results}
+    ctx.extra['selftest'] = {'synthetic_rewrites_silent': sum(1 for r in results if r['patch'].startswith('gm/') and r['status'] == 'missed'), 'synthetic_rewrites': sum(1 for r in results if r['patch'].startswith('gm/')),
+                             'fired': fired, 'total': total, 'skipped': sum(1 for r in results if r['status'] == 'skipped'), 'results': results}
     for r in results:
         print('  selftest %-44s %-8s (expected %s)%s' % (r['patch'], r['status'], r['expect'],
               (' -> ' + r['reports'][0].get('instance', r['reports'][0].get('analysis_broken', ''))[:90]) if r.get('reports') else ''))
